@@ -724,8 +724,11 @@ func (c *Ctx) c19NoStaleCounter() {
 			}
 		case "bool":
 			// _, ok := w.mints[url]; !ok
-			if !ft.Pos && ft.A.K == "ok" && (strings.Contains(ft.A.String(), ".mints") || strings.Contains(ft.A.String(), "loadWalletMints")) {
-				return true
+			// (the map looked up is the wallet's map of mints itself, not a map reached through one of its entries)
+			if !ft.Pos && ft.A.K == "ok" && len(ft.A.Args) == 1 && ft.A.Args[0].K == "lookup" {
+				if m := ft.A.Args[0].Args[0].String(); strings.HasSuffix(m, ".mints") || strings.Contains(m, "loadWalletMints") {
+					return true
+				}
 			}
 		case "errnil":
 			// os.Stat(dbpath) failed: there is no wallet file
